@@ -1,0 +1,453 @@
+//! C10 adapter: the real address filter (`TransportManagerHandle`), TCP address parser,
+//! `AddressStore` and the address-related code paths of `TransportManager` behind the line
+//! protocol.
+//!
+//! Addresses are written as multiaddr strings in which peer ids are `P<n>`
+//! (`crate::verif::peer(n)`; `P0` is the local peer id of the manager under test).
+
+use super::TransportManagerHandle;
+use crate::{
+    error::{AddressError, DialError},
+    transport::{
+        common::listener::{AddressType, DnsType, GetSocketAddr, TcpAddress},
+        manager::{
+            address::{AddressRecord, AddressStore},
+            limits::ConnectionLimitsConfig,
+            peer_state::PeerState,
+            types::{PeerContext, SupportedTransport},
+            TransportManager, TransportManagerBuilder,
+        },
+        Endpoint, Transport, TransportEvent,
+    },
+    types::ConnectionId,
+    verif::{kv, peer, peer_index, VerifBox},
+    Error, PeerId,
+};
+
+use futures::{future::BoxFuture, FutureExt, Stream};
+use multiaddr::{Multiaddr, Protocol};
+
+use std::{
+    pin::Pin,
+    sync::{Arc, Mutex},
+    task::{Context, Poll},
+};
+
+/// Peers whose context is pre-created with a custom store capacity by `cfg cap=N`.
+const PRESET_PEERS: u64 = 4;
+
+type OpenLog = Arc<Mutex<Vec<(ConnectionId, Vec<Multiaddr>)>>>;
+
+/// Transport that records the arguments of `open()` and never produces events.
+struct Scripted {
+    opened: OpenLog,
+}
+
+impl Stream for Scripted {
+    type Item = TransportEvent;
+
+    fn poll_next(self: Pin<&mut Self>, _: &mut Context<'_>) -> Poll<Option<Self::Item>> {
+        Poll::Pending
+    }
+}
+
+impl Transport for Scripted {
+    fn dial(&mut self, _: ConnectionId, _: Multiaddr) -> crate::Result<()> {
+        Ok(())
+    }
+
+    fn accept(&mut self, _: ConnectionId) -> crate::Result<BoxFuture<'static, crate::Result<()>>> {
+        Ok(Box::pin(async { Ok(()) }))
+    }
+
+    fn accept_pending(&mut self, _: ConnectionId) -> crate::Result<()> {
+        Ok(())
+    }
+
+    fn reject_pending(&mut self, _: ConnectionId) -> crate::Result<()> {
+        Ok(())
+    }
+
+    fn reject(&mut self, _: ConnectionId) -> crate::Result<()> {
+        Ok(())
+    }
+
+    fn open(&mut self, connection_id: ConnectionId, addresses: Vec<Multiaddr>) -> crate::Result<()> {
+        self.opened.lock().expect("lock").push((connection_id, addresses));
+        Ok(())
+    }
+
+    fn negotiate(&mut self, _: ConnectionId) -> crate::Result<()> {
+        Ok(())
+    }
+
+    fn cancel(&mut self, _: ConnectionId) {}
+}
+
+pub struct AddrBox {
+    manager: Option<TransportManager>,
+    handle: Option<TransportManagerHandle>,
+    opened: OpenLog,
+    /// Number of `occupy` operations so far (fresh connection ids).
+    occupied: usize,
+}
+
+impl AddrBox {
+    pub fn new() -> Self {
+        Self {
+            manager: None,
+            handle: None,
+            opened: Default::default(),
+            occupied: 0,
+        }
+    }
+
+    fn local(&self) -> PeerId {
+        self.manager.as_ref().expect("cfg first").local_peer_id
+    }
+
+    fn peer_of(&self, token: &str) -> Option<PeerId> {
+        let n: u64 = token.strip_prefix('P')?.parse().ok()?;
+        Some(if n == 0 { self.local() } else { peer(n) })
+    }
+
+    fn peer_name(&self, p: &PeerId) -> String {
+        if *p == self.local() {
+            return "P0".into();
+        }
+        match peer_index(p) {
+            Some(i) => format!("P{i}"),
+            None => "P?".into(),
+        }
+    }
+
+    /// Parse the textual form used in the ops (`/p2p/P<n>` placeholders).
+    fn addr(&self, text: &str) -> Option<Multiaddr> {
+        let mut out = String::new();
+        let mut prev_p2p = false;
+        for seg in text.split('/').skip(1) {
+            out.push('/');
+            if prev_p2p {
+                out.push_str(&self.peer_of(seg)?.to_string());
+            } else {
+                out.push_str(seg);
+            }
+            prev_p2p = !prev_p2p && seg == "p2p";
+        }
+        out.parse().ok()
+    }
+
+    /// Print an address in the textual form used in the ops.
+    fn show(&self, address: &Multiaddr) -> String {
+        address
+            .iter()
+            .map(|protocol| match protocol {
+                Protocol::P2p(_) => {
+                    let single = Multiaddr::empty().with(protocol);
+                    match PeerId::try_from_multiaddr(&single) {
+                        Some(p) => format!("/p2p/{}", self.peer_name(&p)),
+                        None => "/p2p/?".to_string(),
+                    }
+                }
+                other => other.to_string(),
+            })
+            .collect()
+    }
+
+    fn show_list(&self, addresses: &[Multiaddr]) -> String {
+        let items: Vec<String> = addresses.iter().map(|a| self.show(a)).collect();
+        format!("[{}]", items.join(","))
+    }
+
+    /// Canonical content of the address store of `peer`: sorted `address=score` pairs.
+    fn store(&self, p: &PeerId) -> String {
+        let manager = self.manager.as_ref().expect("cfg first");
+        let peers = manager.peers.read();
+        match peers.get(p) {
+            None => "none".into(),
+            Some(context) => {
+                let mut items: Vec<String> = context
+                    .addresses
+                    .addresses
+                    .iter()
+                    .map(|(key, record)| {
+                        let key_ok = if key == record.address() { "" } else { "!key" };
+                        format!("{}={}{}", self.show(record.address()), record.verif_score(), key_ok)
+                    })
+                    .collect();
+                items.sort();
+                format!("[{}]", items.join(","))
+            }
+        }
+    }
+
+    fn conn(token: &str) -> Option<ConnectionId> {
+        Some(ConnectionId::from(token.strip_prefix('c')?.parse::<usize>().ok()?))
+    }
+}
+
+fn score_of(token: &str) -> Option<i32> {
+    match token {
+        "max" => Some(i32::MAX),
+        "min" => Some(i32::MIN),
+        t => t.parse().ok(),
+    }
+}
+
+fn dial_error(token: &str) -> Option<DialError> {
+    match token {
+        "addrerr" => Some(DialError::AddressError(AddressError::InvalidProtocol)),
+        "timeout" => Some(DialError::Timeout),
+        _ => None,
+    }
+}
+
+impl VerifBox for AddrBox {
+    fn step(&mut self, line: &str) -> String {
+        let t: Vec<&str> = line.split_whitespace().collect();
+        if let ["cfg", rest @ ..] = t.as_slice() {
+            let args = kv(rest);
+            let (Some(tcp), Some(maxout), Some(cap)) = (args.get("tcp"), args.get("maxout"), args.get("cap")) else {
+                return "bad-op".into();
+            };
+            let maxout = match *maxout {
+                "none" => None,
+                n => match n.parse::<usize>() {
+                    Ok(n) => Some(n),
+                    Err(_) => return "bad-op".into(),
+                },
+            };
+            let cap = match *cap {
+                "default" => None,
+                n => match n.parse::<usize>() {
+                    Ok(n) if n >= 1 => Some(n),
+                    _ => return "bad-op".into(),
+                },
+            };
+            let mut manager = TransportManagerBuilder::new()
+                .with_connection_limits_config(
+                    ConnectionLimitsConfig::default().max_outgoing_connections(maxout),
+                )
+                .build();
+            self.opened = Default::default();
+            if *tcp == "1" {
+                manager.register_transport(
+                    SupportedTransport::Tcp,
+                    Box::new(Scripted {
+                        opened: self.opened.clone(),
+                    }),
+                );
+            }
+            if let Some(cap) = cap {
+                let mut peers = manager.peers.write();
+                for i in 1..=PRESET_PEERS {
+                    peers.insert(
+                        peer(i),
+                        PeerContext {
+                            state: PeerState::Disconnected { dial_record: None },
+                            addresses: AddressStore::verif_with_capacity(cap),
+                        },
+                    );
+                }
+            }
+            self.handle = Some(manager.transport_manager_handle());
+            self.manager = Some(manager);
+            return "ok".into();
+        }
+        if self.manager.is_none() {
+            return "bad-op".into();
+        }
+        match t.as_slice() {
+            ["listen", a] => {
+                let Some(a) = self.addr(a) else { return "bad-op".into() };
+                self.manager.as_mut().expect("cfg").register_listen_address(a);
+                "ok".into()
+            }
+            ["supported", a] => {
+                let Some(a) = self.addr(a) else { return "bad-op".into() };
+                self.handle.as_ref().expect("cfg").supported_transport(&a).to_string()
+            }
+            ["islocal", a] => {
+                let Some(a) = self.addr(a) else { return "bad-op".into() };
+                self.handle.as_ref().expect("cfg").is_local_address(&a).to_string()
+            }
+            ["parse", a] => {
+                let Some(a) = self.addr(a) else { return "bad-op".into() };
+                match TcpAddress::multiaddr_to_socket_address(&a) {
+                    Ok((address, maybe_peer)) => {
+                        let (kind, port) = match address {
+                            AddressType::Socket(s) =>
+                                (if s.is_ipv4() { "ip4" } else { "ip6" }, s.port()),
+                            AddressType::Dns { port, dns_type, .. } => (
+                                match dns_type {
+                                    DnsType::Dns => "dns",
+                                    DnsType::Dns4 => "dns4",
+                                    DnsType::Dns6 => "dns6",
+                                },
+                                port,
+                            ),
+                        };
+                        let p = maybe_peer.map(|p| self.peer_name(&p)).unwrap_or_else(|| "none".into());
+                        format!("ok {kind} {port} {p}")
+                    }
+                    Err(AddressError::InvalidProtocol) => "err invalid-protocol".into(),
+                    Err(AddressError::InvalidPeerId(_)) => "err invalid-peer".into(),
+                    Err(_) => "err other".into(),
+                }
+            }
+            ["addknown", p, addrs @ ..] => {
+                let Some(p) = self.peer_of(p) else { return "bad-op".into() };
+                let mut list = Vec::new();
+                for a in addrs {
+                    let Some(a) = self.addr(a) else { return "bad-op".into() };
+                    list.push(a);
+                }
+                let n = self.handle.as_mut().expect("cfg").add_known_address(&p, list.into_iter());
+                format!("{n} | {}", self.store(&p))
+            }
+            ["insert", p, a, score] => {
+                let (Some(p), Some(a), Some(score)) = (self.peer_of(p), self.addr(a), score_of(score)) else {
+                    return "bad-op".into();
+                };
+                {
+                    let manager = self.manager.as_mut().expect("cfg");
+                    let mut peers = manager.peers.write();
+                    let context = peers.entry(p).or_default();
+                    context.addresses.insert(AddressRecord::from_raw_multiaddr_with_score(a, score));
+                }
+                format!("ok | {}", self.store(&p))
+            }
+            ["list", p, limit] => {
+                let Some(p) = self.peer_of(p) else { return "bad-op".into() };
+                let limit = match *limit {
+                    "max" => usize::MAX,
+                    n => match n.parse::<usize>() {
+                        Ok(n) => n,
+                        Err(_) => return "bad-op".into(),
+                    },
+                };
+                let manager = self.manager.as_ref().expect("cfg");
+                let selected = manager.peers.read().get(&p).map(|c| c.addresses.addresses(limit));
+                match selected {
+                    None => "none".into(),
+                    Some(addresses) => self.show_list(&addresses),
+                }
+            }
+            ["store", p] => {
+                let Some(p) = self.peer_of(p) else { return "bad-op".into() };
+                self.store(&p)
+            }
+            ["scorefail", a, error] => {
+                let (Some(a), Some(error)) = (self.addr(a), dial_error(error)) else {
+                    return "bad-op".into();
+                };
+                let owner = PeerId::try_from_multiaddr(&a);
+                self.manager.as_mut().expect("cfg").update_address_on_dial_failure(a, &error);
+                match owner {
+                    Some(p) => format!("ok | {}", self.store(&p)),
+                    None => "ok | -".into(),
+                }
+            }
+            ["established", p, a, role] => {
+                let (Some(p), Some(a)) = (self.peer_of(p), self.addr(a)) else {
+                    return "bad-op".into();
+                };
+                let endpoint = match *role {
+                    "dialer" => Endpoint::dialer(a, ConnectionId::from(900_000usize)),
+                    "listener" => Endpoint::listener(a, ConnectionId::from(900_000usize)),
+                    _ => return "bad-op".into(),
+                };
+                self.manager
+                    .as_mut()
+                    .expect("cfg")
+                    .update_address_on_connection_established(p, &endpoint);
+                format!("ok | {}", self.store(&p))
+            }
+            ["dial", p] => {
+                let Some(p) = self.peer_of(p) else { return "bad-op".into() };
+                let before = self.opened.lock().expect("lock").len();
+                let next = self
+                    .manager
+                    .as_ref()
+                    .expect("cfg")
+                    .next_connection_id
+                    .load(std::sync::atomic::Ordering::Relaxed);
+                let result = self
+                    .manager
+                    .as_mut()
+                    .expect("cfg")
+                    .dial(p)
+                    .now_or_never()
+                    .expect("dial does not suspend");
+                let after = self
+                    .manager
+                    .as_ref()
+                    .expect("cfg")
+                    .next_connection_id
+                    .load(std::sync::atomic::Ordering::Relaxed);
+                let head = match result {
+                    Ok(()) if after == next => "inprogress".to_string(),
+                    Ok(()) => {
+                        let log = self.opened.lock().expect("lock");
+                        match log.get(before) {
+                            Some((conn, addresses)) => {
+                                let id = if *conn == ConnectionId::from(next) {
+                                    next.to_string()
+                                } else {
+                                    "?".to_string()
+                                };
+                                format!("open c{} {}", id, self.show_list(addresses))
+                            }
+                            None => format!("noopen c{next}"),
+                        }
+                    }
+                    Err(Error::ConnectionLimit(_)) => "err limit".into(),
+                    Err(Error::TriedToDialSelf) => "err self".into(),
+                    Err(Error::AlreadyConnected) => "err connected".into(),
+                    Err(Error::NoAddressAvailable(_)) => "err no-address".into(),
+                    Err(_) => "err other".into(),
+                };
+                format!("{head} | {}", self.store(&p))
+            }
+            ["opened", c, a] => {
+                let (Some(c), Some(a)) = (Self::conn(c), self.addr(a)) else {
+                    return "bad-op".into();
+                };
+                let owner = self.manager.as_ref().expect("cfg").pending_connections.get(&c).copied();
+                let result =
+                    self.manager.as_mut().expect("cfg").on_connection_opened(SupportedTransport::Tcp, c, a);
+                let head = match result {
+                    Ok(()) => "ok",
+                    Err(_) => "err",
+                };
+                match owner {
+                    Some(p) => format!("{head} | {}", self.store(&p)),
+                    None => format!("{head} | -"),
+                }
+            }
+            ["openfail", c] => {
+                let Some(c) = Self::conn(c) else { return "bad-op".into() };
+                match self.manager.as_mut().expect("cfg").on_open_failure(SupportedTransport::Tcp, c) {
+                    Ok(Some(_)) => "ok".into(),
+                    Ok(None) => "ok more".into(),
+                    Err(_) => "err".into(),
+                }
+            }
+            ["dialfailed", c] => {
+                let Some(c) = Self::conn(c) else { return "bad-op".into() };
+                match self.manager.as_mut().expect("cfg").on_dial_failure(c) {
+                    Ok(()) => "ok".into(),
+                    Err(_) => "err".into(),
+                }
+            }
+            ["occupy"] => {
+                self.occupied += 1;
+                let id = ConnectionId::from(1_000_000usize + self.occupied);
+                let manager = self.manager.as_mut().expect("cfg");
+                manager.connection_limits.accept_established_connection(id, false);
+                "ok".into()
+            }
+            _ => "bad-op".into(),
+        }
+    }
+}
